@@ -46,6 +46,10 @@ Definition ocell (m : method) (d : cell) (o : obj) (x t : Z) : cell :=
   | _ => None
   end.
 
+(* operands of the branch without any proper frame: Series, scalar, single-column frame *)
+Definition pseudo (o : obj) : bool :=
+  match o with OS _ => true | OF [_] _ => true | ON _ => true | _ => false end.
+
 Section OPS.
   Variable opc : cell -> cell -> cell.
 
